@@ -72,13 +72,19 @@ Definition inv_cpu (s : state) : Prop :=
   cpu_is (nr_cpu (ni_usage (st_info s))) (ktotal (st_live s)) /\
   Forall on_grid (st_live s) /\ ktotal (st_live s) <= BND.
 
-Definition op_grid (o : op) : Prop :=
+Fixpoint op_grid (o : op) : Prop :=
   match o with
   | OpAlloc ws => Forall on_grid ws
   | OpRealloc _ _ new => on_grid new
   | OpRollbackRealloc _ origin => on_grid origin
+  | OpFailedCommit inner => op_grid inner
   | _ => True
   end.
+
+Lemma G0 : G 0 = f_zero.
+Proof. vm_compute. reflexivity. Qed.
+Lemma cpu_is_f_zero : cpu_is f_zero 0.
+Proof. split; [reflexivity|rewrite G0; reflexivity]. Qed.
 
 Lemma ktotal_select_le live idxs pos : Forall on_grid live ->
   0 <= ktotal (select_idxs live idxs pos) /\ 0 <= ktotal (remove_idxs live idxs pos).
@@ -107,13 +113,20 @@ Proof. intros. unfold sub_all. simpl. apply (proj2 GC); assumption. Qed.
 
 (* every step preserves the CPU invariant, provided the oracle values are on
    the grid and the total stays within the bound *)
-Theorem step_inv_cpu s o : op_grid o -> inv_cpu s ->
+Theorem step_inv_cpu s o : op_grid o -> inv_valid s -> inv_cpu s ->
   ktotal (st_live (sr_state (step s o))) <= BND ->
   inv_cpu (sr_state (step s o)).
 Proof.
-  intros OG (Hu & Hl & HB) HB'.
+  intros OG IV (Hu & Hl & HB) HB'.
   pose proof (ktotal_nonneg _ Hl) as H0.
-  destruct o as [|ws|idxs|i|i req new|i origin]; simpl in *.
+  destruct o as [|ws|idxs|i|i req new|i origin|inner].
+  7: { (* a commit that failed in another plugin: cpu written back through utils.Round *)
+       destruct (failed_commit_state s inner IV) as (_ & L & [E|E]); unfold inv_cpu; rewrite L, E.
+       - split; [assumption|split; assumption].
+       - split; [|split; assumption]. cbn [st_info ni_usage]. unfold written_back, nr_add, nr_empty. cbn [nr_cpu].
+         replace (ktotal (st_live s)) with (0 + ktotal (st_live s)) by lia.
+         apply (proj1 GC); [exact cpu_is_f_zero|exact Hu|unfold BND; lia|lia|lia]. }
+  all: simpl in *.
   - (split; [assumption|split; assumption]).
   - destruct (sr_err (commit s ws true (st_live s ++ ws))) eqn:E.
     + rewrite commit_err_state by exact E. (split; [assumption|split; assumption]).
@@ -172,11 +185,11 @@ Fixpoint bounded_run (s : state) (h : list op) : Prop :=
   | o :: t => ktotal (st_live (sr_state (step s o))) <= BND /\ bounded_run (sr_state (step s o)) t
   end.
 
-Theorem history_inv_cpu : forall h s, Forall op_grid h -> bounded_run s h -> inv_cpu s -> inv_cpu (run s h).
+Theorem history_inv_cpu : forall h s, Forall op_grid h -> bounded_run s h -> inv_valid s -> inv_cpu s -> inv_cpu (run s h).
 Proof.
-  unfold run. induction h as [|o t IH]; intros s OG BR I; simpl; [exact I|].
+  unfold run. induction h as [|o t IH]; intros s OG BR IV I; simpl; [exact I|].
   inversion OG; subst. destruct BR as [B1 B2].
-  apply IH; [assumption|assumption|]. apply step_inv_cpu; assumption.
+  apply IH; [assumption|assumption|apply step_valid; exact IV|]. apply step_inv_cpu; assumption.
 Qed.
 
 (* Incr then Decr of the same resources restores the CPU total *)
